@@ -15,22 +15,25 @@ ShareFn == <<3, 1, 1, 1>>
 
 \* delivered fields per action type (names understood by the driver's reference encoder)
 SinglesOf(kind) ==
-  CASE kind = "slc"      -> <<"contract", "payload", "fee", "cfee", "payer", "msgid", "deadline", "relayer", "valset", "power", "sig", "append", "trunc", "selector">>
-    [] kind = "valset"   -> <<"newvalset", "newpower", "relayer", "gas", "valset", "power", "sig", "append", "trunc", "selector">>
-    [] kind = "handover" -> <<"contract", "payload", "deadline", "gas", "relayer", "valset", "power", "sig", "append", "trunc", "selector">>
-    [] kind = "uusc"     -> <<"contract", "payload", "fee", "cfee", "payer", "msgid", "deadline", "relayer", "valset", "power", "sig", "append", "trunc", "selector">>
-    [] OTHER             -> <<"bytecode", "ctor", "append", "trunc">>
+  CASE kind = "slc"      -> <<"contract", "payload", "fee", "cfee", "payer", "msgid", "deadline", "relayer", "valset", "power", "sig", "append", "append1", "prepend", "prepend1", "trunc", "selector">>
+    [] kind = "valset"   -> <<"newvalset", "newpower", "relayer", "gas", "valset", "power", "sig", "append", "append1", "prepend", "prepend1", "trunc", "selector">>
+    [] kind = "handover" -> <<"contract", "payload", "deadline", "gas", "relayer", "valset", "power", "sig", "append", "append1", "prepend", "prepend1", "trunc", "selector">>
+    [] kind = "uusc"     -> <<"contract", "payload", "fee", "cfee", "payer", "msgid", "deadline", "relayer", "valset", "power", "sig", "append", "append1", "prepend", "prepend1", "trunc", "selector">>
+    [] kind = "uscn"     -> <<"bytecode", "ctorargs", "append", "append1", "prepend", "prepend1", "trunc">>
+    [] OTHER             -> <<"bytecode", "ctor", "append", "append1", "prepend", "prepend1", "trunc">>
 DoublesOf(kind) ==
   CASE kind = "slc"      -> <<"relayer+deadline", "fee+payload", "valset+sig", "msgid+deadline", "contract+payload", "append+relayer">>
     [] kind = "valset"   -> <<"newvalset+gas", "relayer+gas", "valset+sig", "newpower+power", "append+relayer">>
     [] kind = "handover" -> <<"contract+payload", "gas+relayer", "deadline+gas", "valset+sig", "append+relayer">>
     [] kind = "uusc"     -> <<"relayer+deadline", "fee+payload", "valset+sig", "msgid+deadline", "contract+payload", "append+relayer">>
-    [] OTHER             -> <<"bytecode+ctor", "append+ctor">>
+    [] kind = "uscn"     -> <<"bytecode+append1", "prepend1+append1">>
+    [] OTHER             -> <<"bytecode+ctor", "append+ctor", "append1+ctor">>
 FewOf(kind) ==
   CASE kind = "slc"      -> {"relayer", "fee", "append"}
     [] kind = "valset"   -> {"newvalset", "gas", "append"}
     [] kind = "handover" -> {"payload", "relayer", "trunc"}
     [] kind = "uusc"     -> {"msgid", "deadline", "append"}
+    [] kind = "uscn"     -> {"ctorargs", "append1"}
     [] OTHER             -> {"ctor", "append"}
 Nth(s, i) == s[((i - 1) % Len(s)) + 1]
 CorrSet(kind) ==
@@ -56,7 +59,7 @@ GSign == \E v \in Signers, m \in DOMAIN msgs \cup {nextId} :
 \* menu of the first evidence on message m in this round
 Menu(m) ==
   LET kind == msgs[m].kind
-      ks == IF kind = "usc" THEN {1} ELSE 0..Len(msgs[m].sigs) IN
+      ks == IF IsUsc(kind) THEN {1} ELSE 0..Len(msgs[m].sigs) IN
      {[t |-> "tx", of |-> m, k |-> k, corr |-> "none", st |-> "ok", n |-> 1] : k \in ks}
   \cup {[t |-> "tx", of |-> m, k |-> 1, corr |-> "none", st |-> "fail", n |-> 1],
         [t |-> "tx", of |-> m, k |-> 1, corr |-> "none", st |-> "ok", n |-> 2],
@@ -97,7 +100,7 @@ GNext == ph.r <= MaxRounds /\ (GEnqueue \/ GSign \/ GEvidence \/ GEvidenceBad \/
 Last == hist[Len(hist)]
 \* the incoming action is part of the view, so that rejected / no-op steps get a history of their own
 GView == <<IF res \in {"fail", "noop", "nobuild"} THEN Last ELSE <<>>, res, ph, msgs, txs, processed, live, deploy, active, user>>
-GConstr == Len(hist) <= MaxOps /\ Cardinality({i \in DOMAIN hist : hist[i].act = "Enqueue"}) <= (IF Lean /\ hist[1].args.w = 1 THEN 0 ELSE MaxNew) /\ ph.r <= MaxRounds + 1
+GConstr == Len(hist) <= MaxOps /\ Cardinality({i \in DOMAIN hist : hist[i].act = "Enqueue"}) <= (IF Lean /\ hist[1].args.w \in {1, 3} THEN 0 ELSE MaxNew) /\ ph.r <= MaxRounds + 1
 EmitCond == Len(hist) >= 3 /\ (Last.act = "EndBlock" \/ res \in {"fail", "noop", "nobuild"})
 GNextC == (IF EmitCond THEN PrintT(<<"HIST", ToJson(hist)>>) ELSE TRUE) /\ GNext
 Emit == Len(hist) = EmitAt => PrintT(<<"HIST", ToJson(hist)>>)
